@@ -50,8 +50,8 @@ GEN_PRESETS = ["mixed", "mono", "mono-disc", "kron3", "mixing", "mono-mixing", "
 
 
 def plan(tier, seed):
-    n_gen = 4 if tier == "quick" else 100
-    n_pipe = 6 if tier == "quick" else 120
+    n_gen = 7 if tier == "quick" else 100
+    n_pipe = 10 if tier == "quick" else 120
     cases = []
     for name in GEN_PRESETS:
         _, _, semirings = next(p for p in c01.PRESETS if p[0] == name)
